@@ -49,7 +49,7 @@ PROPS = {
     },
     "C03": {
         "profile": "all", "n_quick": 4, "n_thorough": 30, "nops": 18, "nlists": 3, "cfgs": SIX,
-        "corpus": ["fork_auto_region"],
+        "corpus": ["fork_auto_region", "fork_partial_none", "fork_partial_always", "explicit_completion"],
         "monitor": M.mon_C03, "check_ids": True, "extra_flags": ("-DH_INTROSPECT",),
         "relevant": M.relevant_by(M.proj({"N", "X", "MN", "MX"}, keep_snap=True)),
         "rule": "machines with completion, deferral, history and blocking states; after every operation the reported "
@@ -70,7 +70,7 @@ PROPS = {
     },
     "C05": {
         "extra": [("mix", 3, 12)], "profile": "defer", "n_quick": 5, "n_thorough": 40, "nops": 18, "nlists": 3, "cfgs": SIX,
-        "corpus": ["defer_codes", "interrupt_defer", "terminate_defer", "defer_action_sub", "defer_action_root", "throw_in_pool"],
+        "corpus": ["defer_codes", "defer_ortho_reject", "interrupt_defer", "terminate_defer", "defer_action_sub", "defer_action_root", "throw_in_pool"],
         "monitor": None,
         "relevant": M.relevant_by(M.proj(M.ALL, keep_res=True, keep_snap=True, keep_ev=True)),
         "rule": "machines with deferring states inside the documented envelope (deferred event not handled by the same "
@@ -128,7 +128,7 @@ PROPS = {
     },
     "C13": {
         "profile": "common", "n_quick": 6, "n_thorough": 50, "nops": 18, "nlists": 3, "cfgs": SIX + ["back+circ", "back11+circ"],
-        "monitor": M.mon_spec, "cross_cfg": M.proj_C13,
+        "monitor": M.mon_spec, "cross_cfg": M.proj_C13, "corpus": ["exitpt_codes", "exitpt_regions", "rowkind_row", "rowkind_grow", "fwd_sub_table"],
         "relevant": M.relevant_by(M.proj(M.ALL, keep_res=True, keep_snap=True, keep_ev=True)),
         "rule": "machines inside the common feature subset (no machine-level internal tables, no Kleene / base-class triggers, "
                 "deferral and blocking states only in the root, completion rows from simple states in one region with guards "
